@@ -278,7 +278,7 @@ impl Prop for C16 {
                         _ => Stmt::Function { name: simple(&format!("fn{}", ["a", "b", "c", "d"][i % 4])), params: vec![simple("p")], body: vec![] },
                     });
                 }
-                let mut g = SynGen::new(t, SynCfg::default());
+                let mut g = SynGen::new(t, SynCfg { giant_chains: true, ..SynCfg::default() });
                 stmts.push(Stmt::If { cond: var(&x), then: g.block(1, false), els: Some(g.block(1, false)) });
                 stmts.extend(g.block(2, false));
                 Case { prog: Program::single(stmts) }
@@ -287,7 +287,7 @@ impl Prop for C16 {
                 // 50-100 levels of nested blocks with statements on the way in and on the way out
                 let depth = 50 + t.pick(51);
                 let x = simple("x");
-                let mut inner: Vec<Stmt> = SynGen::new(t, SynCfg::default()).block(1, false);
+                let mut inner: Vec<Stmt> = SynGen::new(t, SynCfg { giant_chains: true, ..SynCfg::default() }).block(1, false);
                 for i in 0..depth {
                     let mut body = vec![say(num(i as f64))];
                     body.extend(inner);
@@ -295,7 +295,7 @@ impl Prop for C16 {
                 }
                 Case { prog: Program::single(inner) }
             }
-            _ => Case { prog: SynGen::new(t, SynCfg::default()).program() },
+            _ => Case { prog: SynGen::new(t, SynCfg { giant_chains: true, ..SynCfg::default() }).program() },
         }
     }
     fn check(&self, c: &Case) -> Outcome {
